@@ -59,6 +59,12 @@ def jsonable(x: Any) -> Any:
     return repr(x)
 
 
+def _viol_size(v: dict) -> tuple:
+    """Smallest counterexample first: fewer players, shorter history."""
+    h = v.get("history")
+    return (v.get("n", 99) if isinstance(v.get("n"), int) else 99, len(h) if isinstance(h, list) else 0)
+
+
 class Stats:
     """Mergeable coverage statistics of (part of) a run."""
 
@@ -106,9 +112,8 @@ class Stats:
         self.evals += other.evals
         self.nontrivial += other.nontrivial
         self.nviol += other.nviol
-        for v in other.violations:
-            if len(self.violations) < MAX_KEPT_VIOLATIONS:
-                self.violations.append(v)
+        if other.violations:
+            self.violations = sorted(self.violations + other.violations, key=_viol_size)[:MAX_KEPT_VIOLATIONS]
         for s in other.samples:
             if len(self.samples) < MAX_SAMPLES:
                 self.samples.append(s)
